@@ -174,3 +174,76 @@ crate::mq_harness_real!(c16_protocol_o0, hk_c16_protocol_o0, Runner<MemProg<fals
 crate::mq_harness_real!(c16_protocol_o1, hk_c16_protocol_o1, Runner<MemProg<false>, 1>, reclaim_protocol::<false, 1>(20, 2));
 crate::mq_harness_real!(c16_protocol_idle_o0, hk_c16_protocol_idle_o0, Runner<MemProg<true>, 0>, reclaim_protocol::<true, 0>(20, 2));
 crate::mq_harness_real!(c16_protocol_seq, hk_c16_protocol_seq, Runner<MemProg<false>, 0>, reclaim_protocol::<false, 0>(20, 0));
+
+// ==========================================================================================
+// C17 churn (unit level, real MemoryManager): conservation of retired objects.  Every object
+// handed to free() must at any quiescent moment be (a) still waiting in the retire list,
+// (b) in the batch of the running reclamation cycle, or (c) deallocated.  A batch that is
+// overwritten or forgotten shows up as retired > freed + pending, i.e. memory that grows with
+// the number of retirements although every handle keeps announcing.
+//   two or three tokens; in every round a solver-chosen subset of them announces (a handle
+//   that lags does no operation in that round); ROUNDS x 21 retirements.
+
+pub fn churn_conservation<const ROUNDS: usize>() {
+    sched::configure(0, 0, 0, 0);
+    let mgr = MemoryManager::new();
+    let t1 = mgr.get_token();
+    let t2 = mgr.get_token();
+    let frees0 = al().total_frees;
+    let mut retired: u32 = 0;
+    let mut lagged = false;
+    let mut round = 0;
+    while round < ROUNDS {
+        // which handles run an operation (and therefore announce) before this round's retirements
+        let a1: bool = kani::any();
+        let a2: bool = kani::any();
+        if a1 {
+            if mgr.signal.load(Ordering::Relaxed).get_epoch() {
+                mgr.update_token(t1);
+            }
+        }
+        if a2 {
+            if mgr.signal.load(Ordering::Relaxed).get_epoch() {
+                mgr.update_token(t2);
+            }
+        }
+        if !(a1 && a2) {
+            lagged = true;
+        }
+        let mut i = 0;
+        while i < 21 {
+            let p: *mut u64 = Box::into_raw(Box::new(0u64));
+            mgr.free(p, 1);
+            retired += 1;
+            i += 1;
+        }
+        let (w, b) = mgr.verif_pending();
+        let freed = al().total_frees - frees0;
+        assert!(
+            retired == freed + w as u32 + b as u32,
+            "C17: retired bookkeeping memory was lost (neither freed nor pending): memory grows with churn"
+        );
+        round += 1;
+    }
+    // everybody announces; two more retirements complete the running cycle
+    mgr.update_token(t1);
+    mgr.update_token(t2);
+    let p: *mut u64 = Box::into_raw(Box::new(0u64));
+    mgr.free(p, 1);
+    retired += 1;
+    let (w, b) = mgr.verif_pending();
+    let freed = al().total_frees - frees0;
+    assert!(
+        retired == freed + w as u32 + b as u32,
+        "C17: retired bookkeeping memory was lost (neither freed nor pending): memory grows with churn"
+    );
+    assert!(
+        (w + b) as u32 <= 42,
+        "C17: with every handle announcing, more than two batches of retired memory are still held"
+    );
+    kani::cover!(lagged && freed >= 21, "a batch was reclaimed although a handle lagged for a round");
+    std::mem::forget(mgr);
+}
+
+crate::mq_harness_real!(c17_churn_r2, hk_c17_churn_r2, Idle, churn_conservation::<2>());
+crate::mq_harness_real!(c17_churn_r3, hk_c17_churn_r3, Idle, churn_conservation::<3>());
